@@ -75,7 +75,8 @@ func buildAbstract(c fmtCase, trace string) (main M, imported M) {
 	if c.val("command") == "scalar" {
 		t["command"] = "/bin/echo main-c1 >> " + trace
 	} else {
-		t["command"] = L{"/bin/echo main-c1 >> " + trace, "/bin/echo main-c2-$E1-$VV >> " + trace}
+		// (a blank followed by two slashes inside a string is text, in every format)
+		t["command"] = L{"/bin/echo main-c1 >> " + trace, "/bin/echo main-c2-$E1-$VV // not-a-comment >> " + trace}
 	}
 	if v := c.val("before"); v != "absent" {
 		t["before"] = strOrList(v, "/bin/echo main-before >> "+trace)
@@ -122,7 +123,7 @@ func buildAbstract(c fmtCase, trace string) (main M, imported M) {
 	if c.val("exportas") == "present" {
 		t["exportas"] = "MAIN_OUT"
 	}
-	doc := M{"tasks": M{"main": t, "dep": M{"command": L{"/bin/echo dep >> " + trace}, "description": "a dependency"}}}
+	doc := M{"tasks": M{"main": t, "dep": M{"command": L{"/bin/echo dep >> " + trace}, "description": "a dependency // with two slashes\tand a tab"}}}
 	switch c.val("context") {
 	case "plain":
 		doc["contexts"] = M{"cx": M{"env": M{"CE": "ce"}, "before": L{"/bin/echo ctx-before >> " + trace}}}
